@@ -491,6 +491,8 @@ let run_case line =
         while !found = None && not (Queue.is_empty q) && !count <= limit do
           let (s, (bw, bc, bs, br), path) = Queue.pop q in
           incr count;
+          (* global deadlock: no thread can take a step (budgets do not count) *)
+          if not (List.exists (fun (l, _) -> p_step b s l <> None) labels) then found := Some (List.rev path, s);
           List.iter (fun (l, kind) ->
             if !found = None then begin
               let bud = (match kind with
@@ -517,8 +519,9 @@ let run_case line =
       with Exit -> ());
       (match !found with
        | Some (path, s) ->
-           Printf.sprintf "FOUND states=%d | %s | main=%d msg=%d net=%d inj=%d panic=%d cnts=%s acts=%s" !count
+           Printf.sprintf "FOUND states=%d | %s | %smain=%d msg=%d net=%d inj=%d panic=%d cnts=%s acts=%s" !count
              (String.concat " " (List.map lab_str path))
+             (if p_bad s then "" else "DEADLOCK(no thread can step) ")
              (int_of_nat (x_p_main s)) (int_of_z (x_p_msg s)) (int_of_z (x_p_net s)) (int_of_nat (x_p_inj s)) (int_of_nat (x_p_panic s))
              (String.concat "," (List.map (fun c -> string_of_int (int_of_z c)) (x_p_cnts s)))
              (String.concat "," (List.map (fun b -> if b then "1" else "0") (x_p_acts s)))
